@@ -446,12 +446,12 @@ def eval_fn(fn, m, argval):
     env = {("arg", 0): argval & 0xff}
     for p in paths.enumerate_paths(fn, m):
         ok = True
-        for c, taken, inst in p.conds:
+        for cd in p.conds:
             try:
-                v = eval_concrete(c, env)
+                holds = paths.cond_holds(cd, env)
             except NoValue:
                 raise AnalysisError("%s: branch not a function of the argument" % fn.name)
-            if bool(v) != bool(taken):
+            if not holds:
                 ok = False
                 break
         if ok:
@@ -604,7 +604,7 @@ def analyse_dumper(chk, m, fn, depth=0, top=True):
             for v in range(0, MAXSZ + 1):
                 env = {("arg", szarg): v}
                 try:
-                    if all(bool(eval_concrete(c, env)) == bool(taken) for c, taken, inst in p.conds):
+                    if all(paths.cond_holds(cd, env) for cd in p.conds):
                         anyfeas = True
                         break
                 except NoValue:
@@ -637,13 +637,13 @@ def analyse_dumper(chk, m, fn, depth=0, top=True):
         for v in range(0, MAXSZ + 1):
             env = {("arg", szarg): v}
             feas = True
-            for c, taken, inst in p.conds:
+            for cd in p.conds:
                 try:
-                    val = eval_concrete(c, env)
+                    holds = paths.cond_holds(cd, env)
                 except NoValue:
                     feas = None
                     break
-                if bool(val) != bool(taken):
+                if not holds:
                     feas = False
                     break
             if feas is None:
